@@ -1,8 +1,8 @@
 # C06 — plain data passes through unchanged; $$ escapes any literal dollar.
-from .. import core, evalgen, gen, hist, histprop
+from .. import filepass, core, evalgen, gen, hist, histprop
 from ..core import veq
 
-CLI = ()
+CLI = ("bkl",)
 HARNESS = True
 ASSUMPTIONS = ["theorems are about Model.Eval (eval_docs) and Model.Str (escape/unescape); tie to the Go evaluator is this run's comparison through OutputDocuments"]
 RULE = ("three streams: (a) one plain document over an alphabet of $FOO, ${X}, $(cmd), braces, colons, dots, quotes as keys and values; "
@@ -70,7 +70,15 @@ def dist_fn(dist, c, a, b):
 
 def run(ctx):
     n = 2000 if ctx.tier == "quick" else 40000
-    return histprop.run_history_property(ctx, "C06", gen_case, n, RULE, nontrivial, judge=judge, dist_fn=dist_fn)
+    stats = histprop.run_history_property(ctx, "C06", gen_case, n, RULE, nontrivial, judge=judge, dist_fn=dist_fn)
+    rng = core.Rng(ctx.seed + 1)
+    nf = 200 if ctx.tier == "quick" else 4000
+    cases = [gen_case(rng.fork("fc%d" % i)) for i in range(nf)]
+    done = filepass.run_layers_through_files(ctx, [filepass.layers_of_history(c) for c in cases], rng, "C06", "c06-disagreement")
+    stats["distribution"]["through_layer_files"] = done
+    stats["evaluations"] += done
+    stats["disagreements_checked"] = len(ctx.violations)
+    return stats
 
 
 def replay(ctx, payload):
